@@ -28,6 +28,22 @@ Proof. exact print_then_edit. Qed.
 Theorem C14_print_then_edit_refuted : exists l o, run [Print; o; Print] l = None /\ run [o; Print] l <> None.
 Proof. exact print_then_edit_refuted. Qed.
 
+(* the whole property on the model, for every history: construction and editing steps with print and query
+   calls interleaved at any points -- if the run with the observer calls does not panic, its final print is
+   exactly the final print of the steps alone ... *)
+Theorem C14_observers_noop_unless_panic : forall h l r, final_print h l = Some r -> final_print (drop_observers h) l = Some r.
+Proof. exact observers_noop_unless_panic. Qed.
+(* ... whether it panics is decided by running it ... *)
+Theorem C14_safe_history_observers_noop : forall h l, safe_history h l = true -> final_print (drop_observers h) l = final_print h l.
+Proof. exact safe_history_observers_noop. Qed.
+(* ... and the unguarded statement is false (KF-15): the steps alone print, with a print in between they panic *)
+Theorem C14_observers_noop_refuted : exists h l, final_print (drop_observers h) l <> None /\ final_print h l = None.
+Proof. exact observers_noop_refuted. Qed.
+Example C14_safe_history_example :
+  let x := {| it_named := false; it_id := 0; it_value := true |} in
+  safe_history [Insert 0 x; Print; Query; Insert 1 x; Rename 0 true; Print] [x] = true.
+Proof. reflexivity. Qed.
+
 (* what the history model takes for granted about the observers, read off the regenerated bodies of all
    491 observer methods (String / LLString / Ident / Type / WriteTo) as they are in the source now: none
    writes to an object that existed before the call, except that a Type method fills its own cache under
